@@ -17,7 +17,7 @@ from sim.core import RunResult
 from sim.c01_session import decls_after, drop_var, _nest
 
 ID = "C02"
-TIERS = {"quick": 8000, "thorough": 150000}
+TIERS = {"quick": 40000, "thorough": 500000}
 RULE = (
     "each run = one seeded program (<=6 variables, domain product <=1024, <=5 constraints of <=18 nodes), an answer-key "
     "subset (none/some/all), a route (A adversarial SimBackend refute loop with model-choice policy lexmin/lexmax/uniform/"
